@@ -348,12 +348,21 @@ def check_nonce_helper(rep, facts, hkey, base_idx, seq_idx, rule):
                 if x[0] == 'call' and x[1].endswith('::iter') and y[0] == 'call' and y[1].endswith('::iter'):
                     A, B = (x[2][0], x[3]), (y[2][0], y[3])
                     shape_ok = True
+    fs_form = False
+    if not shape_ok and inner[0] == 'call' and inner[1] == 'generic_array::functional::FunctionalSequence::zip' and len(inner[2]) == 3:
+        # generic-array's own elementwise combinator: `a.zip(b, |x, y| x ^ y)` over two arrays of the same type-level length
+        A, B, clos = (inner[2][0], inner[3]), (inner[2][1], inner[3]), inner[2][2]
+        shape_ok = fs_form = True
     if not shape_ok:
         loop = _nonce_zip_loop_form(rep, facts, a, rt, base_idx, rule)
         if loop is None:
             loop = _nonce_elementwise_form(rep, facts, a, rt, base_idx, rule)
         if loop is None:
             loop = _nonce_loop_form(rep, facts, a, rt, base_idx, rule)
+        if loop is None:
+            tail = _nonce_tail_xor_form(rep, facts, a, rt, base_idx, seq_idx, rule)
+            if tail is not None:
+                return tail
         if loop is None:
             rep.undecided(rule, fn, 'xor-shape', pp(rt)[:300],
                           'AeadNonce(from_exact_iter(base.iter().zip(buf.iter()).map(|(a,b)| a ^ b)).unwrap()) or `for i in 0..len { buf[i] ^= base[i] }`', where(a))
@@ -366,7 +375,7 @@ def check_nonce_helper(rep, facts, hkey, base_idx, seq_idx, rule):
         return _check_counter_writer(rep, facts, a, fn, l, enc_writer, base_idx, seq_idx, same_ty, rule)
     cr = closure_ret(facts, clos)
     xor_ok = (cr is not None and cr[0] == 'call' and cr[1] == 'core::ops::BitXor::bitxor'
-              and {pp(cr[2][0]), pp(cr[2][1])} == {'p2.0', 'p2.1'})
+              and {pp(cr[2][0]), pp(cr[2][1])} == ({'p2', 'p3'} if fs_form else {'p2.0', 'p2.1'}))
     rep.check(xor_ok, rule, fn, 'xor-closure', pp(cr) if cr else 'none', 'bitxor of the two zipped bytes', where(a))
     # which side is the base nonce, which is the counter buffer
     sides = []
@@ -692,6 +701,103 @@ def _nonce_zip_loop_form(rep, facts, a, rt, base_idx, rule):
     rep.check(a.cfg.dominates(calls[0][0][0], ssite[0]), rule, fn, 'xor-after-counter', 'encoder at bb%d, xor loop at bb%d' % (calls[0][0][0], ssite[0]),
               'the counter is written before the XOR loop', where(a, ssite))
     return l, init, calls[0]
+
+
+def _nonce_tail_xor_form(rep, facts, a, rt, base_idx, seq_idx, rule):
+    """nonce = base_nonce.clone(); for (n, s) in nonce.0[len - 8..].iter_mut().zip(seq_bytes.iter()) { *n ^= *s } with seq_bytes the
+    8-byte big-endian counter: the leading bytes of I2OSP(seq, Nn) are zero, so only the tail is touched.
+    -> True / False once the shape is recognised (every obligation reported), None for another shape"""
+    from ..tyutil import array_len
+    fn = a.body.key
+    if rt[0] != 'mem' or rt[4] or len(rt[3]) != 1 or rt[3][0][2][0] not in ('store?', 'store'):
+        return None
+    l_out, init = rt[1], rt[2]
+    inner = init[3][0] if init[0] == 'agg' and init[1] == 'adt' and len(init[3]) == 1 else init
+    is_copy = inner[0] == 'call' and inner[1] == 'core::clone::Clone::clone' and len(inner[2]) == 1 and \
+        addr_fields(inner[2][0]) == (('param', base_idx), ['0'])
+    if not is_copy:
+        return None
+    ssite = rt[3][0][0]
+    st = a.stmt_at(ssite)
+    if not (st.get('k') == 'assign' and st['rv'].get('k') == 'binop' and st['rv'].get('op') == 'BitXor' and st['place']['p'] == ['deref']):
+        return None
+    v = a.val_rv(st['rv'], ssite)
+    pth_d, nx = _payload_path(a.val_local(st['place']['l'], ssite))
+    lay = _iter_layout(a, nx) if nx is not None else None
+    if lay is None or len(lay[1]) != 2:
+        return None
+    ops = []
+    for o in (v[2], v[3]):
+        if not (o[0] == 'load' and not o[2]):
+            return None
+        pth, n2 = _payload_path(o[1])
+        if n2 is None or n2[3] != nx[3] or lay[0].get(pth, (None,))[0] != 'elem':
+            return None
+        ops.append(pth)
+    if pth_d not in ops or len(set(ops)) != 2:
+        return None
+    other = [p_ for p_ in ops if p_ != pth_d][0]
+    dref, sref = lay[0][pth_d][1], lay[0][other][1]
+    ok = True
+    # destination: the last 8 bytes of the copy of the base nonce
+    seqw, seqty = seq_adt_width(facts)
+    nbytes = (seqw or 64) // 8
+    rep.check(seqw == 64, rule, 'aead::Seq', 'seq-width', 'Seq(%s)' % seqty, 'Seq wraps a u64', None)
+    dpos = False
+    if dref[0] == 'addr' and dref[1] == ('local', l_out) and len(dref[2]) == 2 and dref[2][0] == ('f', '0') and dref[2][1][0] == 'slice' and dref[2][1][2] is None:
+        lo = dref[2][1][1]
+        if lo is not None and lo[0] == 'bin' and lo[1] == 'Sub' and lo[2][0] == 'len':
+            lb, lf = addr_fields(lo[2][1])
+            k = lo[3]
+            kval = k[2] if k[0] == 'const' and isinstance(k[2], int) else None
+            if k[0] == 'call' and k[1] == 'core::mem::size_of':
+                from .common import size_of_term
+                kval = size_of_term(facts, k)
+            if k[0] == 'len' and k[1][0] == 'addr' and k[1][1][0] == 'local' and not k[1][2]:
+                kval = array_len(a.body.local_ty(k[1][1][1]))
+            dpos = kval == nbytes and lf == ['0'] and (lb == ('local', l_out) or lb == ('param', base_idx))
+    rep.check(dpos, rule, fn, 'counter-position', pp(dref)[:200], 'the XOR runs over nonce[len - %d ..] of the copied base nonce' % nbytes, where(a, ssite))
+    ok = ok and dpos
+    # source: a whole local 8-byte array whose only writer is the verified big-endian encoder applied to seq.0
+    sl = sref[1][1] if sref[0] == 'addr' and sref[1][0] == 'local' and not sref[2] else None
+    sok = sl is not None and array_len(a.body.local_ty(sl)) == nbytes
+    rep.check(sok, rule, fn, 'counter-buffer', pp(sref)[:120], 'a whole local [u8; %d] holding the counter' % nbytes, where(a, ssite))
+    if not sok:
+        return False
+    cv = a.val_local(sl, ssite)
+    # the XOR store was resolved above to the nonce tail (the element handed out by iter_mut); the coarse root analysis lists it
+    # for every buffer the zipped iterator borrows, the counter array is only borrowed shared (iter)
+    cw = [w for w in cv[3] if not (w[2][0] == 'store?' and w[0] == ssite)] if cv[0] == 'mem' and not cv[4] else []
+    one = len(cw) == 1 and cw[0][2][0] == 'call' and cw[0][3] and not cw[0][1]
+    rep.check(one, rule, fn, 'single-writer', pp(cv)[:200], 'exactly one writer of the whole counter array (the big-endian encoder), on every path', where(a, ssite))
+    if not one:
+        return False
+    wsite, wpath, wdesc, _ = cw[0]
+    enc_info = wdesc[4]
+    enc_key = enc_info[3] if enc_info else None
+    enc_ok = enc_key is not None and check_be_encoder(rep, facts, enc_key, nbytes, 'R02.3')
+    rep.check(enc_ok, rule, fn, 'encoder', 'writer %s' % wdesc[1], 'a verified big-endian u%d encoder (R02.3)' % (8 * nbytes), where(a, wsite))
+    val = wdesc[2][1] if len(wdesc[2]) > 1 else ('unknown', 'no value arg')
+    vb, vf = load_path_fields(val)
+    vok = vb == ('param', seq_idx) and vf == ['0'] and not contains(val, lambda x: isinstance(x, tuple) and x[:1] == ('cast',))
+    rep.check(vok, rule, fn, 'counter-value', pp(val), 'seq.0 (the full u64, no cast)', where(a, wsite))
+    after = a.cfg.dominates(wsite[0], ssite[0])
+    rep.check(after, rule, fn, 'xor-after-counter', 'encoder at bb%d, xor loop at bb%d' % (wsite[0], ssite[0]), 'the counter is written before the XOR loop', where(a, ssite))
+    # the loop: one loop, leaves only when the zip runs dry, the store runs in every iteration
+    sw = [b2 for b2 in a.cfg.reach if a.body.blocks[b2]['term']['k'] == 'switch'
+          and (lambda d: d[0] == 'discr' and d[1][0] == 'call' and d[1][3] == nx[3])(a.val_op(a.body.blocks[b2]['term']['discr'], a.term_point(b2)))]
+    shape = False
+    if len(sw) == 1 and len(a.cfg.back_edges()) == 1:
+        t2 = a.body.blocks[sw[0]]['term']
+        none_t, some_t = switch_edge(t2, 0), switch_edge(t2, 1)
+        bk = a.cfg.back_edges()[0][0]
+        shape = none_t != some_t and all(a.cfg.edge_dominates(sw[0], none_t, r) for r in a.cfg.returns) and \
+            a.cfg.edge_dominates(sw[0], some_t, ssite[0]) and a.cfg.dominates(ssite[0], bk)
+    rep.check(shape, rule, fn, 'xor-loop-body', 'nonce[len-%d+k] ^= counter[k] in every iteration of one loop: %s' % (nbytes, shape),
+              'one plain loop over the zip of the nonce tail and the counter bytes', where(a, ssite))
+    same_ty = a.body.local_ty(l_out) == a.body.local_ty(base_idx).lstrip('&').strip()
+    rep.check(same_ty, rule, fn, 'buffer-type', '%s vs %s' % (a.body.local_ty(l_out), a.body.local_ty(base_idx)), 'the result has the base nonce\'s type', where(a))
+    return bool(ok and enc_ok and vok and after and shape and same_ty)
 
 
 def _nonce_loop_form(rep, facts, a, rt, base_idx, rule):
